@@ -5,6 +5,7 @@
 // which the next runnable thread is chosen from a choice list (prefix) or by a policy.
 // A state with unfinished threads and none runnable is a deadlock / lost wake-up.
 #include "vsched.h"
+#include <errno.h>
 #include <pthread.h>
 #include <sched.h>
 #include <stdio.h>
@@ -202,7 +203,12 @@ void vs_exit(void* ret) {
   pthread_exit(nullptr);
 }
 
-int vs_setaffinity(pid_t pid, size_t sz, const cpu_set_t* set) { (void)pid; (void)sz; (void)set; return 0; }
+int vs_setaffinity(pid_t pid, size_t sz, const cpu_set_t* set) {
+  (void)pid;
+  // pinning to a CPU the process may not use fails, as it does with more workers than CPUs or in a restricted cpuset
+  if (ctl.cpu_limit >= 0 && set) for (int cpu = 0; cpu < (int)(sz * 8) && cpu < CPU_SETSIZE; cpu++) if (CPU_ISSET_S(cpu, sz, set)) { if (cpu >= ctl.cpu_limit) { errno = EINVAL; return -1; } break; }
+  return 0;
+}
 
 }  // extern "C"
 
